@@ -71,6 +71,21 @@ fn peer_headers(role: Role, kind: &str) -> Vec<u8> {
             f.remove(0); // missing :method / :status
         }
         "hm2" => f.push((":bogus", b"1".to_vec())), // undefined pseudo-header field
+        // sections RFC 9114 calls malformed but h3's gate (C12) accepts: tolerated, they are healthy messages here
+        "hk0" => {
+            let p = f.remove(0); // a pseudo-header field after a regular field
+            f.push(("x-a", b"1".to_vec()));
+            f.push(p);
+        }
+        "hk1" => match role {
+            Role::Server => f.push((":status", b"200".to_vec())), // response pseudo-header in a request
+            Role::Client => f.push((":method", b"GET".to_vec())),
+        },
+        "hk2" => f.push(("connection", b"close".to_vec())), // connection-specific field
+        "hk3" => {
+            let p = f[0].clone(); // duplicated pseudo-header field
+            f.push(p);
+        }
         "ho" => f.push(("x-big", vec![b'b'; MAX_FIELD_SECTION as usize])),
         "hq" => return frame(1, &[0, 0, 0xff, 0x89, 0x01]), // static index 200
         _ => panic!("driver: headers kind {}", kind),
@@ -82,6 +97,7 @@ fn peer_headers(role: Role, kind: &str) -> Vec<u8> {
 fn peer_trailers(kind: &str) -> Vec<u8> {
     let f: Vec<(&str, Vec<u8>)> = match kind {
         "t" => vec![("x-t", b"1".to_vec())],
+        "tk0" => vec![("x-t", b"1".to_vec()), (":status", b"200".to_vec())], // pseudo-header field in trailers: tolerated by h3
         "tm0" => vec![("X-T", b"1".to_vec())],            // uppercase field name
         "tm1" => vec![("x-t", vec![b'a', 0, b'b'])],       // NUL in the field value
         "tm2" => vec![("x-t", b"1".to_vec()), (":bogus", b"1".to_vec())], // undefined pseudo-header field
@@ -136,6 +152,42 @@ fn event_bytes(role: Role, t: &str) -> Option<Vec<u8>> {
         return Some(v);
     }
     panic!("driver: event {}", t)
+}
+
+/// `<event>*<n>`: the event's bytes reach h3 cut into n transport chunks; `<event>+`: in ONE chunk together with the
+/// next event's bytes (a chunk spanning the end of a payload and the following frame).  Returns how many script events
+/// were consumed.
+fn deliver_decorated(w: &Shared, id: u64, role: Role, evs: &[String], k: usize) -> usize {
+    let t = &evs[k];
+    if let Some(base) = t.strip_suffix('+') {
+        let mut b = event_bytes(role, base).expect("driver: joined event");
+        let next = evs.get(k + 1).expect("driver: joined event without successor");
+        let nb = next.split('*').next().unwrap().trim_end_matches('+');
+        b.extend(event_bytes(role, nb).expect("driver: joined with a non-chunk"));
+        w.lock().unwrap().push(id, Ev::Chunk(Bytes::from(b)));
+        return 2;
+    }
+    if let Some((base, n)) = t.split_once('*') {
+        let n: usize = n.parse().unwrap();
+        let b = event_bytes(role, base).expect("driver: split event");
+        let n = n.clamp(1, b.len());
+        let mut g = w.lock().unwrap();
+        let mut from = 0;
+        for j in 1..=n {
+            // data events are cut inside the frame header only (after the type byte): payload pieces are the model's business
+            let to = if base.starts_with('d') { if j == 1 { 1 } else { b.len() } } else { j * b.len() / n };
+            if to > from {
+                g.push(id, Ev::Chunk(Bytes::copy_from_slice(&b[from..to])));
+            }
+            from = to;
+            if to == b.len() {
+                break;
+            }
+        }
+        return 1;
+    }
+    deliver(w, id, role, t);
+    1
 }
 
 fn deliver(w: &Shared, id: u64, role: Role, t: &str) {
@@ -420,7 +472,7 @@ fn run_case(role: Role, reqs: &[ReqSpec], sched: &[&str], grease: bool, unk: boo
     let mut next_ev = vec![0usize; n];
     let mut task: Vec<Option<usize>> = vec![None; n];
     // client role: events / stop that arrive before the request has a stream
-    let mut early: Vec<Vec<String>> = vec![Vec::new(); n];
+    let mut early: Vec<Vec<usize>> = vec![Vec::new(); n];
     let mut early_stop: Vec<Option<u64>> = vec![None; n];
     let mut dead = vec![false; n]; // client request that ended without ever opening a stream
     let accepted: Rc<RefCell<VecDeque<h3::server::RequestResolver<SimConn, Bytes>>>> = Rc::new(RefCell::new(VecDeque::new()));
@@ -544,18 +596,21 @@ fn run_case(role: Role, reqs: &[ReqSpec], sched: &[&str], grease: bool, unk: boo
             ("o", Role::Client) => {}
             ("e", _) => {
                 if next_ev[i] < reqs[i].events.len() {
-                    let t = reqs[i].events[next_ev[i]].clone();
-                    next_ev[i] += 1;
-                    match role {
-                        Role::Server => deliver(&w, 4 * i as u64, role, &t),
-                        Role::Client => match obs[i].borrow().sid {
-                            Some(id) => deliver(&w, id, role, &t),
-                            None => {
-                                if !dead[i] {
-                                    early[i].push(t)
-                                }
+                    let k = next_ev[i];
+                    let sid = match role {
+                        Role::Server => Some(4 * i as u64),
+                        Role::Client => obs[i].borrow().sid,
+                    };
+                    match sid {
+                        Some(id) => next_ev[i] += deliver_decorated(&w, id, role, &reqs[i].events, k),
+                        None => {
+                            // client request without a stream yet: kept until its first poll
+                            let n = if reqs[i].events[k].ends_with('+') { 2 } else { 1 };
+                            if !dead[i] {
+                                early[i].push(k);
                             }
-                        },
+                            next_ev[i] += n;
+                        }
                     }
                 }
             }
@@ -578,8 +633,8 @@ fn run_case(role: Role, reqs: &[ReqSpec], sched: &[&str], grease: bool, unk: boo
                     if role == Role::Client && obs[i].borrow().sid.is_none() && !dead[i] && !ex.done(t) {
                         // first poll: the stream this task is about to open gets what the peer "already sent"
                         let id = w.lock().unwrap().next_bidi;
-                        for t in early[i].drain(..) {
-                            deliver(&w, id, role, &t);
+                        for k in early[i].drain(..) {
+                            deliver_decorated(&w, id, role, &reqs[i].events, k);
                         }
                         if let Some(c) = early_stop[i].take() {
                             w.lock().unwrap().peer_stop(id, c);
